@@ -323,6 +323,44 @@ def check(ctx: Ctx) -> list[RuleResult]:
     else:
         r6.fail(f"{sf.short}:mode", sf.loc(), f"select_device_filter_mode alters the requested enforcement other than switching it off for an empty known list: writes {bad}, returns {rets}")
     out.append(r6)
+    # ---- R7 ---------------------------------------------------------------------------
+    # The filter configuration is fixed at construction: the gateway's and the protocol's block list, known list and enforcement
+    # flags are only written in constructors. A later (even temporary) write changes which devices are created / which packets
+    # pass for everything that runs in the meantime (e.g. live traffic handled while a cached log is being restored).
+    r7 = RuleResult("R7", "the filter configuration is write-once", "_exclude/_include/_enforce_known_list/enforce_include are assigned only in constructors, and the lists are never mutated in place", min_instances=6)
+    cfg_attrs = {"_exclude", "_include", "_enforce_known_list", "enforce_include"}
+    MUT = {"append", "extend", "insert", "pop", "remove", "clear", "update", "setdefault", "popitem", "__setitem__", "__delitem__"}
+    for f in sorted(repo.funcs.values(), key=lambda x: x.qualname):
+        if not f.module.name.startswith(("ramses_tx", "ramses_rf")):
+            continue
+        for n in own_nodes(f.node):
+            tgt = None
+            how = ""
+            if isinstance(n, (ast.Assign, ast.AnnAssign, ast.AugAssign)):
+                for t in (n.targets if isinstance(n, ast.Assign) else [n.target]):
+                    for el in (t.elts if isinstance(t, (ast.Tuple, ast.List)) else [t]):
+                        if isinstance(el, ast.Attribute) and el.attr in cfg_attrs and isinstance(el.value, ast.Name) and el.value.id == "self":
+                            tgt, how = el, "assigns"
+                        elif isinstance(el, ast.Subscript) and isinstance(el.value, ast.Attribute) and el.value.attr in cfg_attrs and isinstance(el.value.value, ast.Name) and el.value.value.id == "self":
+                            tgt, how = el.value, "stores into"
+            elif isinstance(n, ast.Call) and isinstance(n.func, ast.Attribute) and n.func.attr in MUT and isinstance(n.func.value, ast.Attribute) and n.func.value.attr in cfg_attrs and isinstance(n.func.value.value, ast.Name) and n.func.value.value.id == "self":
+                tgt, how = n.func.value, f"calls .{n.func.attr}() on"
+            elif isinstance(n, ast.Delete):
+                for t in n.targets:
+                    if isinstance(t, ast.Subscript) and isinstance(t.value, ast.Attribute) and t.value.attr in cfg_attrs:
+                        tgt, how = t.value, "deletes from"
+            if tgt is None:
+                continue
+            # only the filter's owners: the Engine/Gateway and the protocol classes
+            if f.cls is None or not any(c.name in ("Engine", "_DeviceIdFilterMixin") for c in f.cls.mro):
+                continue
+            r7.instances += 1
+            r7.nontrivial += 1
+            if f.name == "__init__":
+                r7.ok({"write": f"{f.short}: {norm(n)[:60]}"})
+            else:
+                r7.fail(f"{f.short}:{how.split()[0]}:self.{tgt.attr}", f.loc(n), f"{f.short} {how} self.{tgt.attr} after construction: the device filter's configuration changes under everything that is running (packets received and devices created in the meantime are judged by the altered filter)")
+    out.append(r7)
     return out
 
 
